@@ -86,6 +86,19 @@ def build_source(src, scratch, name='src.sgy'):
                 if off:
                     hdrs[t][37] = {'vary': 100 + 25 * t, 'const': 1500, 'repeat': 100 + 50 * (t % 3), 'desc': 5000 - 10 * t}[off]
             gen.make_segy_traces(path, list(data), hdrs, dt_us=dt, t0=t0, fmt=src['fmt'], ext=src.get('ext', 0))
+        elif how == 'single-inline-gathers':
+            # one inline, the crossline word holds a CDP number shared by the traces of a gather (irregular fold), offsets vary within it
+            hdrs, cdp, t = [], 0, 0
+            folds = [1, 3, 2, 4, 1, 2]
+            while t < nT:
+                for j in range(folds[cdp % len(folds)]):
+                    if t < nT:
+                        h = {k: int(a[t]) for k, a in hm.items()}
+                        h.update({189: int(src['il'][0]) if src['il'][0] != 0 else 7, 193: 100 + cdp, 37: 50 + 25 * j})
+                        hdrs.append(h)
+                        t += 1
+                cdp += 1
+            gen.make_segy_traces(path, list(data), hdrs, dt_us=dt, t0=t0, fmt=src['fmt'], ext=src.get('ext', 0))
         else:
             cube3 = data[None, :, :] if how == 'single-inline' else data[:, None, :]
             il = np.array([src['il'][0]]) if how == 'single-inline' else src['il'][0] + abs(src['il'][1]) * np.arange(nT)
